@@ -117,7 +117,7 @@ class ProcessDiameterMessage:
             if avp.get_length() == AVP_HEADER_LENGTH + len(avp.data):
                 checklist_mandatory_info += 1
 
-            data = avp.data.decode("utf-8")
+            data = avp.data.decode("utf-8", errors="replace")
             process_message_logging.debug(f"data: {data}.")
             if data == connection.peer_node.host_name:
                 checklist_mandatory_info += 1
@@ -145,7 +145,7 @@ class ProcessDiameterMessage:
             if avp.get_length() == AVP_HEADER_LENGTH + len(avp.data):
                 checklist_mandatory_info += 1
 
-            data = avp.data.decode("utf-8")
+            data = avp.data.decode("utf-8", errors="replace")
             process_message_logging.debug(f"data: {data}.")
             if data == connection.peer_node.realm:
                 checklist_mandatory_info += 1
